@@ -29,6 +29,7 @@ def S(s: str):
     return "[" + ";".join(str(ord(c)) for c in s) + "]"
 
 
+LOGIN = "alice"
 NAMES = sorted(SYSTEM_VARIABLES)
 DYNAMIC = [n for n in NAMES if SYSTEM_VARIABLES[n][2]]
 READONLY = [n for n in NAMES if not SYSTEM_VARIABLES[n][2]]
@@ -304,6 +305,7 @@ def run_program(loop, ops):
     """runs the ops through the real Session; returns per op (outcome, snapshot after, problem)"""
     sess = VSession()
     sess._connection = FakeConn()
+    sess.variables.set("external_user", LOGIN, force=True)      # what Connection does at the handshake
     out = []
     for op in ops:
         before = snapshot(sess)
@@ -326,7 +328,7 @@ def run_program(loop, ops):
         if op["kind"].startswith("hint") and after != before:
             ch = {k: (before[k], after[k]) for k in NAMES if before[k] != after[k]}
             problem = dict(problem="a SET_VAR hint outlives its statement", changed=repr(ch))
-        ro = {k: after[k] for k in READONLY if after[k] != SYSTEM_VARIABLES[k][1]}
+        ro = {k: after[k] for k in READONLY if after[k] != (LOGIN if k == "external_user" else SYSTEM_VARIABLES[k][1])}
         if ro and problem is None:
             problem = dict(problem="a read-only variable was changed by a client statement", changed=repr(ro))
         for k in NAMES:
@@ -453,6 +455,11 @@ def run(ctx: core.Ctx):
             [dict(kind="hint-get", sql="SELECT /*+ SET_VAR(sql_mode = 'H') SET_VAR(version = '9') */ @@sql_mode", names=["sql_mode"],
                   term=f"(OHinted [[[({S('sql_mode')}, RVal (VStr {S('H')}))]; [({S('version')}, RVal (VStr {S('9')}))]]] (InGet [{S('sql_mode')}]))")],
         ]
+        for ro_name in READONLY:
+            for rhs_sql, rhs_term in (("DEFAULT", "RDefault"), ("NULL", "(RVal VNone)"), ("'x'", f"(RVal (VStr {S('x')}))")):
+                fixed.append([dict(kind="set", sql=f"SET {ro_name} = {rhs_sql}", term=f"(OSet [IVar false ScSession {S(ro_name)} {rhs_term}])"),
+                              dict(kind="set", sql=f"SET @@session.{ro_name.upper()} = {rhs_sql}, sql_mode = 'after'",
+                                   term=f"(OSet [IVar false ScSession {S(ro_name.upper())} {rhs_term}; IVar false ScSession {S('sql_mode')} (RVal (VStr {S('after')}))])")])
         for p in fixed:
             programs.append(p)
         for _ in range(nprog):
@@ -471,7 +478,7 @@ def run(ctx: core.Ctx):
         allnames = core.coq_list([S(n) for n in NAMES])
         terms = []
         for p, res in zip(programs, results):
-            ops = []
+            ops = [f"(OServerSet {S('external_user')} (SVal (VStr {S(LOGIN)})) true)"]
             for op in p[:len(res)]:
                 ops += [op["term"], f"(OGet {allnames})", "OShow"]
             terms.append("snd (runm " + core.coq_list(ops) + ")")
@@ -485,7 +492,7 @@ def run(ctx: core.Ctx):
         if model is not None:
             for p, res, m in zip(programs, results, model):
                 for j, (oc, after, show, problem) in enumerate(res):
-                    mo, mget, mshow = model_outcome(m[3 * j]), m[3 * j + 1], m[3 * j + 2]
+                    mo, mget, mshow = model_outcome(m[1 + 3 * j]), m[2 + 3 * j], m[3 + 3 * j]
                     io = oc[:2] if oc[0] == "Failed" else oc
                     if io[0] == "Values":
                         io = ("Values", [norm_val(v) for v in io[1]])
